@@ -182,7 +182,7 @@ PURE_CHECKS = ["split_model_ok", "matcher_contract_ok", "diff_model_ok", "linenu
                "empty_spec_ok", "pyapplier_ok"]
 
 
-def eval_parallel(ctx, name, case_type, cases, checks, chunk=250, workers=8):
+def eval_parallel(ctx, name, case_type, cases, checks, chunk=250, workers=min(12, core.NCPU)):
     bad = {c: [] for c in checks}
     jobs = [(off, cases[off:off + chunk]) for off in range(0, len(cases), chunk)]
 
@@ -245,7 +245,61 @@ def run_pure(ctx, items):
         it, diff, nums, pyres, _ = meta[i]
         ctx.violation("c03_empty_diff", f"diff is empty iff texts are equal fails: old={it['ta']!r} new={it['tb']!r} diff={diff!r}",
                       {"kind": "pure", "ta": it["ta"], "tb": it["tb"], "observed_diff": diff})
-    return bad
+    return [(m[0]["ta"], m[1]) for m in meta if m[1]]
+
+
+def mutate_diff(rng, d: str) -> str:
+    """malformed stream for the two appliers: a real diff with one or two random defects"""
+    lines = d.split("\n")
+    for _ in range(rng.choice([1, 1, 2])):
+        if not lines:
+            break
+        i = rng.randrange(len(lines))
+        op = rng.choice(["del", "dup", "digit", "prefix", "trunc", "swap", "garbage", "nohdr", "zero"])
+        if op == "del":
+            del lines[i]
+        elif op == "dup":
+            lines.insert(i, lines[i])
+        elif op == "digit":
+            hs = [j for j, l in enumerate(lines) if l.startswith("@@")]
+            if hs:
+                j = rng.choice(hs)
+                ds = [k for k, c in enumerate(lines[j]) if c.isdigit()]
+                if ds:
+                    k = rng.choice(ds)
+                    lines[j] = lines[j][:k] + rng.choice("0123456789") + lines[j][k + 1:]
+        elif op == "prefix" and lines[i]:
+            lines[i] = rng.choice(" +-@x") + lines[i][1:]
+        elif op == "trunc":
+            lines = lines[:i]
+        elif op == "swap" and i + 1 < len(lines):
+            lines[i], lines[i + 1] = lines[i + 1], lines[i]
+        elif op == "garbage":
+            lines.insert(i, rng.choice(["@@ bogus @@", "@@ -1,0 +1,0 @@", "", "@@ -1 +1 @@ tail", "@@ -01 +1 @@", "@@  -1 +1 @@"]))
+        elif op == "nohdr":
+            lines = lines[2:]
+        elif op == "zero":
+            lines.insert(min(i, len(lines)), "@@ -0,0 +0,0 @@")
+    return "\n".join(lines)
+
+
+def run_malformed(ctx, rng, pairs, n):
+    if not pairs:
+        return
+    cases, meta = [], []
+    for _ in range(n):
+        ta, d = rng.choice(pairs)
+        md = mutate_diff(rng, d)
+        r = ref.apply_udiff(md, ta)
+        ctx.count("malformed_diff:" + ("rejected" if r is None else "applied"))
+        cases.append("(%s, %s, %s)" % (cstr(md), cstr(ta), copt(None if r is None else cstr(r), "str")))
+        meta.append((md, ta, r))
+    bad = eval_parallel(ctx, "c03_malformed", "e2e_case", cases, ["e2e_pyapplier_ok"], chunk=250)
+    for i in bad["e2e_pyapplier_ok"]:
+        md, ta, r = meta[i]
+        ctx.mismatch("harness/c03_ref.py vs Model.Diff.apply_udiff (malformed diff)",
+                     f"the Python reference applier disagrees with the Coq one on diff={md!r} text={ta!r}: py={r!r}",
+                     {"kind": "applier", "diff": md, "before": ta, "py": r})
 
 
 # ------------------------------------------------------------------------------------------------
@@ -384,13 +438,15 @@ def lossy(text: str) -> bool:
         return False
 
 
-def classify_e2e(path, before_texts):
+def classify_e2e(ctx, path, before_texts):
     """finding class of a path whose diffs do not describe its change; before_texts: the original text and the text
     before the failing step (when known)"""
     name = os.path.basename(path)
     if name in MANIFEST_NAMES and any("\r" in t for t in before_texts):
         return "kf_manifest_crlf"
-    if path.endswith(".py") and any(lossy(t) for t in before_texts):
+    # only when the source diffs libcst's re-rendering (table value diff_source = FromTrees) can the loss explain it
+    from_trees = (ctx.tables or {}).get("diff_source", "FromTrees") == "FromTrees"
+    if from_trees and path.endswith(".py") and any(lossy(t) for t in before_texts):
         return "kf_lossy_roundtrip"
     if any(ref.has_exotic(t) for t in before_texts):
         return "kf_exotic_linebreak"
@@ -446,13 +502,13 @@ def check_project(ctx, files, seq, res, desc, e2e_pairs):
         cls = None
         if failed_at is not None:
             i, cm, d = failed_at
-            cls = classify_e2e(path, [orig_t, cur])
+            cls = classify_e2e(ctx, path, [orig_t, cur])
             what = (f"{path}: diff #{i + 1} (of {len(steps)}, codemod {cm}) does not apply to the content the previous "
                     f"steps produced ({desc})")
             ctx.violation(cls, what, {**replay, "path": path, "step": i, "codemod": cm, "diff": d, "before": cur,
                                       "expected": "every reported diff applies to the content before its codemod ran"})
         elif ref.norm_nl(cur) != ref.norm_nl(fin_t):
-            cls = classify_e2e(path, [orig_t])
+            cls = classify_e2e(ctx, path, [orig_t])
             ctx.violation(cls, f"{path}: the {len(steps)} reported diff(s), applied in order to the original, give "
                                f"{cur[:120]!r}... but the file on disk is {fin_t[:120]!r}... ({desc})",
                           {**replay, "path": path, "observed": fin_t, "expected": cur})
@@ -486,8 +542,18 @@ def run(ctx: core.Ctx):
     items = [{"ta": c["ta"], "tb": c["tb"], "desc": "corpus:" + c["_file"]} for c in corpus if c.get("kind") == "pure"]
     items += [gen_pure(rng) for _ in range(n_pure)]
     items += [gen_pure(rng, exotic=True) for _ in range(n_exotic)]
+    if not quick:
+        # exhaustive small scope: all pairs of texts of <= 3 lines over {a, b}, each with and without a final newline
+        import itertools
+        texts = [""]
+        for n in (1, 2, 3):
+            for ls in itertools.product("ab", repeat=n):
+                texts.append("\n".join(ls) + "\n")
+                texts.append("\n".join(ls))
+        items += [{"ta": x, "tb": y, "desc": "exhaustive<=3"} for x in texts for y in texts]
     t0 = time.time()
-    run_pure(ctx, items)
+    pairs = run_pure(ctx, items)
+    run_malformed(ctx, rng, pairs, 200 if quick else 3000)
     ctx.notes.append(f"pure phase: {len(items)} cases in {round(time.time() - t0, 1)}s")
 
     # ---- (2) end-to-end
